@@ -352,6 +352,8 @@ class Run:
         eb = 8.0 if self.tier == "quick" else 30.0
         attempt(quant, eb, "+ematch", mbqi=False)                    # exact formula, instantiation by patterns only
         attempt(quant, 3 * eb, "+ematch+umul", mbqi=False, abstract_mul=True)
+        for sd in (1, 2, 3):                                         # early seed portfolio for the quantified ones (cheap when it works)
+            attempt(quant, 5.0, "+umul+seed%d" % sd, abstract_mul=True, random_seed=sd)
         backends.discharge(obls, self.budget)                       # exact, everything still open (all back ends)
         unk = [o for o in obls if o.status == "unknown" and o.backend == "smt" and o.expect == "valid"]
         for o in unk:
@@ -360,6 +362,20 @@ class Run:
         for o in unk:
             if o.status is None:
                 o.status = "unknown"
+        # seed portfolio: quantifier instantiation is sensitive to the solver's random choices; any 'unsat' is a proof
+        unk = [o for o in obls if o.status == "unknown" and o.backend == "smt" and o.expect == "valid"]
+        for sd in (1, 2, 3, 4, 5, 6):
+            for o in unk:
+                if o.status == "unknown":
+                    o.status = None
+            attempt(unk, 6.0, "+umul+seed%d" % sd, abstract_mul=True, random_seed=sd)
+            attempt(unk, 6.0, "+seed%d" % sd, random_seed=sd)
+            for o in unk:
+                if o.status is None:
+                    o.status = "unknown"
+            unk = [o for o in unk if o.status == "unknown"]
+            if not unk:
+                break
         unk = [o for o in obls if o.status == "unknown" and o.kind not in ("cover", "canary") and not o.meta.get("finding_witness")][:8]
         for o in unk:
             o.status = None
